@@ -724,6 +724,23 @@ func (g *vfGW) apply(evFull string) {
 		g.fake(arg(1)).send(vfPruneRPC(arg(2), 0, vfPXEntries()...))
 	case "pub":
 		g.fake(arg(1)).send(vfPubRPC(g.pbMsg(arg(2))))
+	case "pubdup":
+		// two copies of the same message inside ONE RPC frame
+		g.fake(arg(1)).send(vfPubRPC(g.pbMsg(arg(2)), g.pbMsg(arg(2))))
+	case "lpubbatch":
+		// lpubbatch:T:LABEL[:local] -- AddToBatch + PublishBatch (gossipsub only)
+		data := make([]byte, 4)
+		copy(data, arg(2))
+		var popts []PubOpt
+		if arg(3) == "local" {
+			popts = append(popts, WithLocalPublication(true))
+		}
+		var b MessageBatch
+		if err := g.topic(arg(1)).AddToBatch(context.Background(), &b, data, popts...); err != nil {
+			g.lpubErr[arg(2)] = err.Error()
+		} else if err := g.n.ps.PublishBatch(&b); err != nil {
+			g.lpubErr[arg(2)] = err.Error()
+		}
 	case "ihave":
 		t := arg(2)
 		ids := []string{}
